@@ -23,7 +23,7 @@ CLAIMED.update({
             "phase guards in stepStage, the all-chunks-complete flag, the waiting rule of Node.getState, dependency sources (inputs, disabled condition, return bindings, fork roots) flowing into the prenode/postnode sets, preflight prenodes incl. recursion into sub-pipelines.",
             "Not decided: that FindRefs returns every reference (value-level recursion), state derivation from real files, job manager internals. Trusts go/ssa and the VTA call graph.",
             "DESIGN.md §4 C02"),
-    "C03": ("guard dominance + must-pass-through + who-may-call over go/ssa; disjunctive at-most-once rule + may-alias fix-point over package syntax (shared Disable list never extended in place) + copy-on-write discipline of shared fork-id parts (pointer provenance: caller's part joined with a private copy, guard compares len(node.forks) with Fork.index, followed into helpers) + must-pass-through (zero-length ranges examined before any enabled verdict of Fork.disabled) + sibling agreement of the chunk-directory width at every creator of chunk objects + no store through a shared fork-id part parameter in the static enumeration + the arm for a narrowed null returns the narrowed value (no job for a null element) + fork count derives from len of a decoded value only + private copy of a shared fork-id part whenever the node has several forks",
+    "C03": ("guard dominance + must-pass-through + who-may-call over go/ssa; disjunctive at-most-once rule + may-alias fix-point over package syntax (shared Disable list never extended in place) + copy-on-write discipline of shared fork-id parts (pointer provenance: caller's part joined with a private copy, guard compares len(node.forks) with Fork.index, followed into helpers) + must-pass-through (zero-length ranges examined before any enabled verdict of Fork.disabled) + sibling agreement of the chunk-directory width at every creator of chunk objects + no store through a shared fork-id part parameter in the static enumeration + the arm for a narrowed null returns the narrowed value (no job for a null element) + fork count derives from len of a decoded value only + private copy of a shared fork-id part whenever the node has several forks + length guard on the constant index into the static fork list + Type stored on the split built for partly disabled outputs + isAlwaysDisabled consulted on every path of the stage resolver",
             "Structural necessary conditions: at-most-once submission (flag test-and-set OR synchronous _jobinfo record before execJob), disabled test before any submission/completion, "
             "empty/null mapped collections reach writeDisable, zero-length range reports disabled, skip() only for preflights under SkipPreflight.",
             "Not decided: one fork per element/key (run-time counts), liveness (no job skipped). The at-most-once rule is a disjunction on purpose: removing one of the two redundant mechanisms keeps behaviour and must not alarm.",
@@ -77,7 +77,7 @@ CLAIMED.update({
 })
 
 CLAIMED.update({
-    "C09": ("table agreement between parse side (fields fed by unquote, computed by taint over the generated grammar actions) and format side (provenance with quoteString as sanitizer); escape-set extraction from quoteString vs the lexer's string regexp constant; must-pass-through field examination (every path of a node's format method reads each content field of a frozen table, predicate helpers expanded) + loop-exit rule on the wildcard while the compiler extends the binding list (premise re-established) + comment fields examined exactly once per format path + loop-index recurrence of the in-place topological sort (slot re-examined after a shift) + split operand comments printed + comment/scope-comment tests followed into helpers and accessors + load-before-clear and clear-after-hand-over of comment fields (must-pass-through) + bounded float->integer conversion in formatGB + multiple-preserving guard in roundUpTo + comments of an empty binding list printed + sign write on the negative edge of formatGB + raw hex byte appended only in the \\x arm of the string decoder",
+    "C09": ("table agreement between parse side (fields fed by unquote, computed by taint over the generated grammar actions) and format side (provenance with quoteString as sanitizer); escape-set extraction from quoteString vs the lexer's string regexp constant; must-pass-through field examination (every path of a node's format method reads each content field of a frozen table, predicate helpers expanded) + loop-exit rule on the wildcard while the compiler extends the binding list (premise re-established) + comment fields examined exactly once per format path + loop-index recurrence of the in-place topological sort (slot re-examined after a shift) + split operand comments printed + comment/scope-comment tests followed into helpers and accessors + load-before-clear and clear-after-hand-over of comment fields (must-pass-through) + bounded float->integer conversion in formatGB + multiple-preserving guard in roundUpTo + comments of an empty binding list printed + sign write on the negative edge of formatGB + raw hex byte appended only in the \\x arm of the string decoder + sign-bit test in the float formatter",
             "Structural necessary conditions: every AST string the parser obtains with unquote reaches formatted text only through quoteString (found raw emission of stage src and include paths, fixed); quoteString copies unescaped only bytes >= 0x20 other than quote/backslash; every escape it writes is lexed by the string rule and decoded by unquoteBytes.",
             "Not decided: idempotence, comment placement, number printing (%g, formatGB), topological order, include-expanded rendering.",
             "DESIGN.md §4 C09"),
